@@ -304,7 +304,11 @@ func (rn *c19Renaming) eq(a, b interface{}, node *c19Node, path []string, where 
 					cands = append(cands, rn.inNew)
 				}
 				if rn.outOld != "" && k == rn.outOld && !node.Stage && len(path) >= 2 && path[0] == "outputs" {
-					cands = append(cands, rn.outNew, k)
+					if len(path) == 2 {
+						cands = append(cands, rn.outNew) // the struct of the pipeline's outputs itself
+					} else {
+						cands = append(cands, k, rn.outNew) // the same struct under a disabled/merge wrapper, or an unrelated field
+					}
 				}
 			}
 			if len(cands) == 0 {
@@ -566,6 +570,9 @@ func c19CompareRemoved(before, after *c19Node, rm *c19Removal) string {
 			be, _ := bo["expression"].(map[string]interface{})
 			ae, _ := ao["expression"].(map[string]interface{})
 			// a disabled pipeline's outputs are wrapped: {__disabled__: cond, value: {…}}
+			if be["__disabled__"] != nil && ao["expression"] == nil && (rm.anyPipeOut || len(rm.outOf[b.Callable]) > 0) {
+				be, ae = nil, nil // every output of a disabled pipeline was removed
+			}
 			for be["__disabled__"] != nil && ae["__disabled__"] != nil {
 				if d := c19JSONDiff(be["__disabled__"], ae["__disabled__"], fq+".outputs.__disabled__"); d != "" {
 					return d
